@@ -3,7 +3,7 @@ import json, os, re
 import vlib
 import brokerlib as B
 
-HOSTILE = [b"%s", b"%d%v", b"a%20b", b"100%", b"%!x(y)", b"%[1]s", b"%%", b"%q%q", b"%08.3f", b"%-5s_", b"x%cy", b"%T%p", b"plain", b"%"]
+HOSTILE = [b" %s", b"%d%v ", b"%s", b"%d%v", b"a%20b", b"100%", b"%!x(y)", b"%[1]s", b"%%", b"%q%q", b"%08.3f", b"%-5s_", b"x%cy", b"%T%p", b"plain", b"%"]
 
 
 def translator_obligation(run):
@@ -91,7 +91,7 @@ def hsrv_stream(run):
     for h in HOSTILE:
         hostile_of += [h.decode()] * 6
         hs = h.decode()
-        esc = hs.replace("%", "%25")
+        esc = hs.replace("%", "%25").replace(" ", "%20")
         # file request: path and query as sent (valid escapes only)
         acts.append({"a": "raw", "req": H("GET /f%s?x=%s HTTP/1.1\r\nHost: h\r\nConnection: close\r\n\r\n" % (esc, esc))})
         expect.append(["/f%s?x=%s" % (esc, esc)])
